@@ -621,6 +621,17 @@ func sshGoroutines() (int, string) {
 	return len(keep), strings.Join(keep, "\n\n")
 }
 
+// readLoopHandingOver: the goroutine is handshakeTransport.readLoop itself (its innermost frame of package ssh, not
+// readOnePacket or the transport below it), blocked handing a packet to `incoming` -- a plain channel send, or a
+// select once the hand-over can be abandoned.
+func readLoopHandingOver(g, hdr string) bool {
+	if !(strings.Contains(hdr, "chan send") || strings.Contains(hdr, "select")) {
+		return false
+	}
+	f := topSSHFrame.FindString(g)
+	return strings.HasSuffix(f, "(*handshakeTransport).readLoop")
+}
+
 // stallSignature names the way the library is stuck, from a goroutine dump restricted to package ssh.
 func stallSignature(dump string) string {
 	readLoopSend, muxWrite, muxClose, muxWait := false, false, false, false
@@ -628,7 +639,7 @@ func stallSignature(dump string) string {
 	for _, g := range strings.Split(dump, "\n\n") {
 		hdr := strings.SplitN(g, "\n", 2)[0]
 		switch {
-		case strings.Contains(g, "handshakeTransport).readLoop") && strings.Contains(hdr, "chan send"):
+		case readLoopHandingOver(g, hdr):
 			readLoopSend = true
 		case strings.Contains(g, "(*mux).loop") && strings.Contains(g, "handshakeTransport).writePacket"):
 			muxWrite = true
